@@ -389,6 +389,78 @@ class CFG:
         return fwd & bwd
 
 
+def feasible(path, fn):
+    """False when the path takes an edge that simple facts established EARLIER ON THE SAME PATH rule out.  Facts tracked per local name:
+      none      after `x = None`
+      nonnull   after `x = y` where y is nonnull, or where the function dereferences y unconditionally elsewhere (`y.attr`: the code's own belief that y is an object)
+      nonempty  after the false edge of `len(x) == 0` / `not x`, the true edge of `x` / `len(x) > 0`, and for `x = sorted(y, ...)` / `list(y)` with y nonempty
+    Every other store to the name forgets its facts.  Used to discard paths like "the retry loop is left although nothing was picked and candidates remain" without
+    depending on how the loop is written."""
+    from .source import truth, src as _src
+    deref = {a.value.id for a in ast.walk(fn) if isinstance(a, ast.Attribute) and isinstance(a.value, ast.Name)}
+    null, empt = {}, {}
+
+    def forget(t):
+        for x in ast.walk(t):
+            if isinstance(x, ast.Name):
+                null.pop(x.id, None)
+                empt.pop(x.id, None)
+
+    for k, n in enumerate(path):
+        a = n.ast
+        if a is None:
+            continue
+        if n.kind == "stmt":
+            if isinstance(a, ast.Assign) and len(a.targets) == 1 and isinstance(a.targets[0], ast.Name):
+                x, v = a.targets[0].id, a.value
+                null.pop(x, None)
+                empt.pop(x, None)
+                if isinstance(v, ast.Constant) and v.value is None:
+                    null[x] = "none"
+                elif isinstance(v, ast.Name) and (null.get(v.id) == "nonnull" or (v.id in deref and null.get(v.id) != "none")):
+                    null[x] = "nonnull"
+                    if empt.get(v.id):
+                        empt[x] = True
+                elif isinstance(v, ast.Call) and isinstance(v.func, ast.Name) and v.func.id in ("sorted", "list", "tuple") and v.args and isinstance(v.args[0], ast.Name) \
+                        and empt.get(v.args[0].id):
+                    empt[x] = True
+            elif isinstance(a, (ast.Assign, ast.AugAssign, ast.AnnAssign)):
+                for t in (a.targets if isinstance(a, ast.Assign) else [a.target]):
+                    forget(t)
+            elif isinstance(a, (ast.For, ast.AsyncFor)):
+                forget(a.target)
+            elif isinstance(a, ast.Delete):
+                for t in a.targets:
+                    forget(t)
+            continue
+        if n.kind != "test" or not isinstance(a, ast.expr) or k + 1 >= len(path):
+            continue
+        stmt = n.stmt
+        if isinstance(stmt, (ast.For, ast.AsyncFor)) and a is stmt.iter:
+            forget(stmt.target)
+            continue
+        facts = {}
+        for x, st in null.items():
+            facts["%s is None" % x] = (st == "none")
+            if st == "none":
+                facts[x] = False
+        for x in empt:
+            facts[x] = True
+            facts["len(%s) == 0" % x] = False
+            facts["len(%s) > 0" % x] = True
+        labs = [lab for m, lab in n.succ if m is path[k + 1]]
+        v = truth(a, facts) if facts else None
+        if v is not None and labs and all(lab in (True, False) for lab in labs) and v not in labs:
+            return False
+        # facts learnt from the edge taken
+        if len(labs) == 1 and labs[0] in (True, False):
+            t = _src(a).replace(" ", "")
+            for nm in {x.id for x in ast.walk(a) if isinstance(x, ast.Name)}:
+                if (t in ("len(%s)==0" % nm, "not%s" % nm, "len(%s)<1" % nm) and labs[0] is False) or (t in (nm, "len(%s)>0" % nm, "len(%s)" % nm, "len(%s)!=0" % nm) and labs[0] is True):
+                    empt[nm] = True
+    return True
+
+
 def build(fn):
     return CFG(fn)
 
